@@ -135,8 +135,8 @@ def run(ctx):
     ctx.correspond("dispatch", IMPORTS, "metric_case", "check_metric_case", lits, cj, shard=100)
     # the set of active processors is whatever it is AT THE HIT: processors added to / removed from the live plugin list
     _RL, _RS, RecMetrics = e2.plugin_classes()
-    for k in range(40 if ctx.thorough else 10):
-        world = e2.World(logger=False, spans=0, metrics=rng.choice([0, 1]))
+    for k in range(120 if ctx.thorough else 30):
+        world = e2.World(logger=False, spans=0, metrics=rng.choice([0, 1, 1]))
         action = LocationAction("tp-m", None, {"metrics": [MetricDefinition("hits", "COUNTER")], "fire_count": "2", "fire_period": "0"},
                                 LocationAction.ActionType.Metric)
         world.install([Trigger(LineLocation("m.py", 7, Location.Position.START), [action])])
@@ -153,6 +153,12 @@ def run(ctx):
             if nproc and fired_before < 2:
                 want_calls += nproc
             history.append((change, nproc))
+            fired_after = e2.stats_of(action)[0]
+            if fired_after != fired_before + (1 if nproc and fired_before < 2 else 0):
+                ctx.fail("plugin list changed in place %r: the hit with %d active processors moved the fire count from %d to %d" % (
+                    history, nproc, fired_before, fired_after), dict(in_place_plugin_changes=history), kind="history",
+                    tag="budget-without-processor" if not nproc else "fire-count")
+                break
         calls = len([1 for w, _t, _i, _p in world.log if w == "metric"])
         j = dict(in_place_plugin_changes=history, calls=calls)
         ctx.case(j, nontrivial=any(c != "none" for c, _n in history), bucket="live-plugin-list")
